@@ -87,7 +87,7 @@ def gen_D(d: gen.D) -> str:
 def _case(draw):
     d = gen.D(draw)
     kind = d.weighted([(4, "seed"), (2, "book"), (2, "label"), (3, "inline")])
-    cfg = d.pick([C.simple("commonmark"), C.simple("js-default"), C.simple("commonmark", inline_definitions=True, store_labels=True), C.simple("js-default", html=True)])
+    cfg = gen.maybe_late(d, d.pick([C.simple("commonmark"), C.simple("js-default"), C.simple("commonmark", inline_definitions=True, store_labels=True), C.simple("js-default", html=True)]))
     if kind == "seed":
         return {"kind": kind, "cfg": cfg, "R": gen_defs(d), "D": gen_D(d)}
     if kind == "book":
@@ -106,6 +106,9 @@ def _case(draw):
         lab = d.pick(LABELS + [gen.word(d) + " " + gen.word(d)])
         return {"kind": kind, "cfg": cfg, "label": lab, "variant": variant(d, lab), "form": d.pick(["[%s]", "[x][%s]", "[%s][]", "![%s]", "![y][%s]"]), "seeded": d.chance(0.4)}
     text = "".join(d.pick(INL) + d.pick(["", " "]) for _ in range(d.i(1, 4))).strip() or "t"
+    if d.chance(0.04):
+        # length boundaries (CommonMark limits a label - not a link text - to 999 characters)
+        text = ("x " * 700)[: d.pick([998, 999, 1000, 1001, 1400])].strip()
     dk = d.i(0, 3)
     core = "".join(d.pick(["a", "/", "b.c", "?q=1", "&amp;", "\\(", "\\)", "(x)", "%20", "ü", "*", "_", "#f", "\\\\", "&#35;", "'", '"']) for _ in range(d.i(1, 5)))
     if dk == 0:
